@@ -16,6 +16,7 @@
 #include "celeritas/global/ActionInterface.hh"
 #include "celeritas/global/CoreState.hh"
 #include "celeritas/global/CoreTrackView.hh"
+#include "celeritas/field/FieldDriverOptions.hh"
 #include "celeritas/global/Stepper.hh"
 #include "celeritas/phys/Primary.hh"
 #include "celeritas/user/ActionDiagnostic.hh"
@@ -154,6 +155,7 @@ struct Shared
     std::vector<json> pending_deliver;
     ActionRegistry const* actions{nullptr};
     std::string order;
+    double chord_tol{0};
 };
 
 json project_slot(CoreParams const& params, CoreStateHost& state, TrackSlotId ts, Recorder& rec)
@@ -339,7 +341,14 @@ void ObserverAction::step(CoreParams const& params, CoreStateHost& state) const
             Real3 p1 = geo.pos();
             Real3 const& p0 = sh_->pos0[i];
             double chord = std::sqrt(ipow<2>(p1[0] - p0[0]) + ipow<2>(p1[1] - p0[1]) + ipow<2>(p1[2] - p0[2]));
-            j["rL_chordlo"] = chord * (1 - 1e-9) - 1e-12;
+            // bracket: rounding only for linear propagation; in a magnetic field the step to a
+            // boundary intercept is accurate to the driver's configured delta_intersection
+            j["rL_chordlo"] = chord * (1 - 1e-9) - 1e-12 - sh_->chord_tol;
+            {
+                char buf[96];
+                std::snprintf(buf, sizeof(buf), "%.17g/%.17g", sim.step_length(), chord);
+                j["dbg_step_chord"] = buf;  // raw doubles for humans (not used by the spec)
+            }
             bool outside = geo.is_outside();
             j["out"] = outside;
             j["vol"] = outside ? 0 : int(geo.volume_id().get());
@@ -630,6 +639,9 @@ int main(int argc, char** argv)
     po.max_events = std::max(nevents, 1);
     po.rng_seed = seed * 7919u + 13u;
     po.table_scale = scale;
+    po.field_tesla = argval<double>(kv, "field", 0.0);
+    if (po.field_tesla != 0)
+        sh.chord_tol = FieldDriverOptions{}.delta_intersection * 1.001;
     if (!script_path.empty())
     {
         po.script = &script;
